@@ -1,13 +1,13 @@
 #!/bin/bash
 # Sanitizer companions (thorough tier extra; not a verdict for any behavioural clause).
-# usage: scripts/sanitize.sh [asan|tsan|miri|all]   — results appended to evidence/sanitizers.json
+# usage: scripts/sanitize.sh [asan|tsan|miri|all]   — results appended to sanitizers/results.json
 ROOT="$(cd "$(dirname "$0")/.." && pwd)"
 WHAT="${1:-all}"
 export CARGO_NET_OFFLINE=true
 SANROOT="$ROOT/harness/target/san-root"
-mkdir -p "$SANROOT/evidence" "$ROOT/evidence"
+mkdir -p "$SANROOT/evidence" "$ROOT/sanitizers"
 cp "$ROOT/known-findings.txt" "$SANROOT/"
-OUT="$ROOT/evidence/sanitizers.json"
+OUT="$ROOT/sanitizers/results.json"
 [ -f "$OUT" ] || echo '[]' > "$OUT"
 record() { # tool workload cases reports wall detail
   python3 - "$OUT" "$@" <<'PY'
